@@ -6,5 +6,7 @@
    ProofsEvents every subscriber's stream replays to the contents
    ProofsRev    the reverse-index invariant and changedInputKeys soundness for EVERY transformation
    ProofsWf     per-key well-formedness of every subscriber's stream under ownership
+   JoinProofs   merge join: contents = merge over the holders, replay, the double Delete
+   JoinProofs2  conflict-resolving join: processedState and replays converge to first-wins; the in-flight witness
    ProofsK5     purity of the table-driven transformations, satisfiable ownership, K5 witnesses *)
-From V Require Export C16.Model C16.ProofsBase C16.ProofsDep C16.ProofsCommit C16.ProofsInv C16.ProofsEvents C16.ProofsRev C16.ProofsWf C16.ProofsK5.
+From V Require Export C16.Model C16.ProofsBase C16.ProofsDep C16.ProofsCommit C16.ProofsInv C16.ProofsEvents C16.ProofsRev C16.ProofsWf C16.ProofsK5 C16.JoinModel C16.JoinProofs C16.JoinProofs2.
